@@ -50,6 +50,9 @@ class FileLike(object):
     def tell(self):
         return self.pos
 
+    def seekable(self):
+        return True
+
     def read(self, n=-1):
         if self.buflist:
             self.buf += self.null.join(self.buflist)
